@@ -39,6 +39,8 @@ from .values import (
     z_int,
 )
 
+EMPTY_STR = z3.Function("is_empty_str", z3.IntSort(), z3.BoolSort())
+
 BINOPS = {
     ast.Add: "+", ast.Sub: "-", ast.Mult: "*", ast.FloorDiv: "//", ast.Mod: "%", ast.LShift: "<<",
     ast.RShift: ">>", ast.BitAnd: "&", ast.BitOr: "|", ast.BitXor: "^", ast.Div: "/", ast.Pow: "**",
@@ -167,6 +169,9 @@ class Executor:
             if v.cls in h:
                 f = h[v.cls]
                 return f(self, st, v) if getattr(f, "wants_ex", False) else f(st, v)
+            if v.cls == "str":
+                # a str is falsy when empty: `if s:` is NOT `s is not None`
+                return z3.And(v.z != 0, z3.Not(EMPTY_STR(v.z)))
             return z3.simplify(v.z != 0)
         if isinstance(v, (VGlobal, VOpaque)):
             raise Unsupported(f"truthiness of {v}")
